@@ -388,7 +388,11 @@ func textDiffCheck(c *run.Ctx, be textBackend, prop string) func(i int) (string,
 	}
 }
 
-func textDiffEval(c *run.Ctx, be textBackend, id string, prog *wgen.Program, seed uint64, nIn int) run.Outcome {
+// policyFn maps an option-set name to the bounds-check policy wref must apply ("" = indices are in range by construction);
+// use=false skips the option set (C15: unprotected option sets say nothing about hostile data).
+type policyFn func(optName string) (policy string, use bool)
+
+func textDiffEval(c *run.Ctx, be textBackend, id string, prog *wgen.Program, seed uint64, nIn int, pol ...policyFn) run.Outcome {
 	src := wgen.Print(prog.M).Src
 	mod, stage, err := lowerSrc(src)
 	if err != nil {
@@ -412,16 +416,55 @@ func textDiffEval(c *run.Ctx, be textBackend, id string, prog *wgen.Program, see
 	}
 	for k := 0; k < nIn; k++ {
 		in := cases.MakeInput(prog.M, r.Split())
-		exp, werr := wref.Run(prog.M, entry, in)
-		if werr != nil {
-			if ee, ok := werr.(*wref.ExecError); ok && (ee.Kind == wref.ErrInconclusive || ee.Kind == wref.ErrBudget) {
-				inconc = "wref: " + ee.Msg
-				continue
+		type refRun struct {
+			exp  wref.Output
+			werr error
+		}
+		refs := map[string]*refRun{}
+		refFor := func(policy string) *refRun {
+			if rr, ok := refs[policy]; ok {
+				return rr
 			}
-			return run.Outcome{V: run.Inconclusive, Reason: "MONITOR wref error: " + werr.Error()}
+			in2 := in
+			in2.Policy = policy
+			rr := &refRun{}
+			rr.exp, rr.werr = wref.Run(prog.M, entry, in2)
+			refs[policy] = rr
+			return rr
+		}
+		if len(pol) == 0 {
+			if rr := refFor(""); rr.werr != nil {
+				if ee, ok := rr.werr.(*wref.ExecError); ok && (ee.Kind == wref.ErrInconclusive || ee.Kind == wref.ErrBudget) {
+					inconc = "wref: " + ee.Msg
+					continue
+				}
+				return run.Outcome{V: run.Inconclusive, Reason: "MONITOR wref error: " + rr.werr.Error()}
+			}
 		}
 		for oi := 0; oi < be.nopt(thorough); oi++ {
 			oname := be.optName(thorough, oi)
+			policy := ""
+			if len(pol) > 0 {
+				p, use := pol[0](oname)
+				if !use {
+					continue
+				}
+				policy = p
+			}
+			rr := refFor(policy)
+			if rr.werr != nil {
+				if ee, ok := rr.werr.(*wref.ExecError); ok && (ee.Kind == wref.ErrInconclusive || ee.Kind == wref.ErrBudget) {
+					inconc = "wref: " + ee.Msg
+					cov["wref-inconclusive"]++
+					continue
+				}
+				return run.Outcome{V: run.Inconclusive, Reason: "MONITOR wref error: " + rr.werr.Error()}
+			}
+			exp := rr.exp
+			if policy != "" {
+				cov["policy:"+policy]++
+				cov["wref.oob-accesses:"+policy] += exp.OOB
+			}
 			var tr textRun
 			rs, ridx := resOfProg(prog, in)
 			if st, pan := run.Catch(func() { tr = be.run(mod, entry.Name, rs, in.NumGroups, thorough, oi, true) }); pan {
@@ -441,7 +484,7 @@ func textDiffEval(c *run.Ctx, be textBackend, id string, prog *wgen.Program, see
 			}
 			bad := false
 			for _, t := range tr.static {
-				note(run.Outcome{V: run.Violated, Class: "static:" + string(t.Kind), Reason: fmt.Sprintf("%s [%s]: %s", id, oname, oneLine(t.Error())), Witness: w})
+				note(run.Outcome{V: run.Violated, Class: "static:" + string(t.Kind), Reason: fmt.Sprintf("%s [%s]: %s%s", id, oname, oneLine(t.Error()), emittedLine(tr.text, t.Error())), Witness: w})
 				bad = true
 				break
 			}
@@ -536,4 +579,24 @@ func init() {
 		c.Each(c.N(600, 6000), textDiffCheck(c, hlslBackend, "C03"))
 		return c.Finish(textDiffRule("HLSL"), []string{"hlslx implements HLSL semantics, byte-address buffer methods and legacy cbuffer packing"})
 	})
+}
+
+// emittedLine quotes the line of the emitted text a monitor message refers to ("line N"), for triage and attribution.
+func emittedLine(text, msg string) string {
+	i := strings.Index(msg, "line ")
+	if i < 0 {
+		return ""
+	}
+	n := 0
+	for _, ch := range msg[i+5:] {
+		if ch < '0' || ch > '9' {
+			break
+		}
+		n = n*10 + int(ch-'0')
+	}
+	lines := strings.Split(text, "\n")
+	if n < 1 || n > len(lines) {
+		return ""
+	}
+	return " | emitted: " + strings.TrimSpace(lines[n-1])
 }
